@@ -302,6 +302,9 @@ impl<'a, S: Sut> Runner<'a, S> {
                 }
             }
             Ev::MatDot { r, k, c, a, b, la, lb } => {
+                if !cfg!(feature = "linalg") {
+                    return Err("matdot: this simulator was built without the linalg client (softposit's `linalg` feature did not build)".into());
+                }
                 let (r, k, c) = (*r, *k, *c);
                 if *la > 3 || *lb > 3 {
                     return Err("matdot: bad storage layout".into());
